@@ -49,7 +49,8 @@ def boo_case(draw, d, size="mixed"):
     allowed = ["translate", "lattice", "perm", "axes", "rotate", "swap"]
     want = draw(C.pick(allowed))
     K = draw(st.integers(2, 3)) if want == "swap" else draw(st.integers(1, 2))       # labels are ignored by the routine
-    N, bulk = draw(C.size_st((max(4, K), 14), size, boundary_hi=133 if d == 3 else 260, large=(199, 513)))
+    N, bulk = draw(C.size_st((max(4, K), 14), size, boundary_hi=133 if d == 3 else 260, large=(199, 513),
+                             share=14 if d == 3 else 10))
     cell = draw(cell_st(d, "any", lmin=2.0, lmax=20.0, origin="any"))
     if C.chance(draw, 5):
         cell = C.integerise(cell)
@@ -515,9 +516,11 @@ def hess_case(draw, size="mixed"):
     a0 = smax * draw(fl(fa_lo, fa_hi))
     stretch = [0.0, 0.0, 0.03, 0.06] if model == "harmonic_hertz" else [0.0, 0.0, 0.1, 0.25]
     ak = a0 * (1.0 + np.array([draw(st.sampled_from(stretch)) for _ in range(d)]))
-    if size == "large" or (size == "mixed" and C.chance(draw, 16)):
+    if size == "large" or isinstance(size, tuple) or (size == "mixed" and C.chance(draw, 20)):
         # particle number on a block boundary: a larger blob (the assembly is a Python double loop over particles)
-        N = draw(C.pick(C.boundary_sizes(31, 133) if size != "large" else C.boundary_sizes(190, 260)))
+        N = draw(C.pick([33, 51, 65, 101, 129] + C.boundary_sizes(31, 133) if size != "large" else C.boundary_sizes(190, 260)))
+        if isinstance(size, tuple):
+            N = int(size[1])
         m = int(np.ceil(N ** (1.0 / d)))
         bl = [m] * d
         bulk = True
@@ -647,6 +650,16 @@ def check_hess(case):
     if np.any(np.abs(dist - rcp) <= 1e-6 * rcp):
         return {"nontrivial": False, "tags": tags + ["skip-pair-on-cutoff"]}
     new = apply_tf(case, tf)
+    # conditioning: the logarithmic derivative d ln(s'', s') / dr of a pair block is <= alpha / (r_c - r) for
+    # the Hertzian family (it vanishes like a power of r_c - r) and <= 20 / r for the power laws; times the coordinate
+    # rounding noise this is the relative accuracy the symmetry can hold to
+    inter = dist < rcp
+    if inter.any():
+        sens = (3.0 / (rcp[inter] - dist[inter]) + 3.0 / dist[inter]) if case["model"] == "harmonic_hertz" \
+            else 20.0 / dist[inter]
+        cond = 4.0 * float(sens.max()) * C.coord_noise(case, new)
+    else:
+        cond = 0.0
     sm = lambda m: C_swap(m, tf["sigma"])  # noqa: E731
     mass1 = np.empty_like(case["masses"])
     mass1[np.asarray(tf["sigma"], dtype=int) - 1] = case["masses"]
@@ -669,16 +682,16 @@ def check_hess(case):
         want = P @ H0 @ P.T
         gmax = float(np.abs(H0).max())
         blk = np.abs(want).reshape(N, d, N, d).max(axis=(1, 3))
-        atol = 1e-8 * np.repeat(np.repeat(blk, d, axis=0), d, axis=1) + 1e-10 * gmax
+        atol = (1e-8 + cond) * np.repeat(np.repeat(blk, d, axis=0), d, axis=1) + 1e-10 * gmax
         close_tol("saved Hessian matrix (transformed vs P H P^T of the original)", H1, want, atol=atol, rtol=0.0)
         nontrivial = bool(gmax > 0 and np.count_nonzero(H0) > d * d)
     lam0 = np.where(om0 > 0, om0 ** 2, om0)
     lam1 = np.where(om1 > 0, om1 ** 2, om1)
     nrm = max(float(np.abs(lam0).max()), 1e-300)
-    close_tol("Hessian eigenvalues (omega^2, ascending)", lam1, lam0, atol=1e-9 * nrm, rtol=0.0)
+    close_tol("Hessian eigenvalues (omega^2, ascending)", lam1, lam0, atol=(1e-9 + 10.0 * cond) * nrm, rtol=0.0)
     big = lam0 > 1e-6 * nrm
     if big.any():
-        close_tol("eigenfrequencies omega", om1[big], om0[big], atol=0.0, rtol=1e-7)
+        close_tol("eigenfrequencies omega", om1[big], om0[big], atol=10.0 * cond * nrm / np.sqrt(lam0[big]), rtol=1e-7)
     # participation ratio: only where the eigenvector is determined (isolated eigenvalue)
     gap = np.full(len(lam0), np.inf)
     dl = np.diff(lam0)
@@ -686,13 +699,14 @@ def check_hess(case):
     gap[:-1] = np.minimum(gap[:-1], dl)
     iso = gap > 1e-3 * nrm
     if iso.any():
-        close_tol("participation ratio of isolated modes", pr1[iso], pr0[iso], atol=1e-11 * nrm / gap[iso], rtol=1e-8)
+        close_tol("participation ratio of isolated modes", pr1[iso], pr0[iso], atol=(1e-11 + 20.0 * cond) * nrm / gap[iso],
+                  rtol=1e-8)
     nvec = 0
     if ev0 is not None and iso.any():
         # saved eigenvectors of isolated modes: column k of the transformed run = +- P (column k of the original)
         ov = np.abs(np.einsum("ik,ik->k", P @ ev0[:, iso], ev1[:, iso]))
         nvec = int(iso.sum())
-        close_tol("saved eigenvectors of isolated modes: |<P e_k, e'_k>|", ov, np.ones(nvec), atol=1e-9 * nrm / gap[iso], rtol=0.0)
+        close_tol("saved eigenvectors of isolated modes: |<P e_k, e'_k>|", ov, np.ones(nvec), atol=(1e-9 + 20.0 * cond) * nrm / gap[iso], rtol=0.0)
     return {"nontrivial": bool(nontrivial and nrm > 1e-300), "tags": tags,
             "extra": {"pr_modes_asserted": int(iso.sum()), "modes": len(lam0), "eigenvectors_asserted": nvec}}
 
@@ -719,7 +733,9 @@ def dyn_case(draw, size="mixed"):
     K = draw(st.integers(2, 3)) if want == "swap" else draw(st.integers(1, 3))
     N = max(N, K)
     T = draw(st.integers(2, 5))
-    if not bulk and size != "large" and C.chance(draw, 12):
+    if isinstance(size, tuple) and size[0] == "frames":      # the size sweep over the number of frames
+        N, bulk, T = draw(st.integers(max(3, K), 8)), False, int(size[1])
+    elif not bulk and size != "large" and C.chance(draw, 12):
         T = draw(st.sampled_from([31, 32, 33]))           # number of frames on a block boundary
     mode = draw(C.pick(["xu", "x", "both"]))
     if mode == "x":
@@ -955,8 +971,11 @@ def check_dyn(case):
 @st.composite
 def cloud_case(draw, vector=False, size="mixed"):
     d = draw(C.pick([2, 3]))
-    if size == "large" or (size == "mixed" and C.chance(draw, 6)):
-        N = draw(C.pick(C.boundary_sizes(31, 1030) if size != "large" else C.boundary_sizes(1500, 2100)))
+    if size == "large" or isinstance(size, tuple) or (size == "mixed" and C.chance(draw, 6)):
+        N = draw(C.pick([33, 51, 65, 101, 129, 201, 257, 513, 1001, 1025] + C.boundary_sizes(31, 1030) if size != "large"
+                        else C.boundary_sizes(1500, 2100)))
+        if isinstance(size, tuple):
+            N = int(size[1])
         bulk = True
     else:
         N = draw(st.integers(1 if vector else 2, 30))
